@@ -67,6 +67,7 @@ func VH_C13_DeepMapIterators() {
 		vhCheckMap(m, addr, model, "after mutating iteration")
 	case 6: // bulk pop: reverse order, everything released
 		var got []uint64
+		popSnap := vhSnapshotAll(storage)
 		err := m.PopIterate(func(ks, vs Storable) {
 			id, _ := vhKeyID(ks, storage)
 			got = append(got, id)
@@ -74,6 +75,7 @@ func VH_C13_DeepMapIterators() {
 			vhDispose(storage, vs)
 		})
 		vhAssert(err == nil, "pop: no error")
+		vhCheckDirtyMarks(storage, popSnap, "pop: dirty marks")
 		rev := make([]uint64, n)
 		for i := range wantK {
 			rev[n-1-i] = wantK[i]
@@ -143,12 +145,14 @@ func VH_C13_DeepArrayIterators() {
 		vhCheckArray(a, addr, model, "after mutating iteration")
 	case 5: // bulk pop
 		var got []uint64
+		popSnap := vhSnapshotAll(storage)
 		err := a.PopIterate(func(s Storable) {
 			v, _ := s.StoredValue(storage)
 			got = append(got, vhTagOf(v))
 			vhDispose(storage, s)
 		})
 		vhAssert(err == nil, "pop: no error")
+		vhCheckDirtyMarks(storage, popSnap, "pop: dirty marks")
 		rev := make([]uint64, n)
 		for i := range model {
 			rev[n-1-i] = model[i]
@@ -234,6 +238,7 @@ func VH_C13_GroupIterators() {
 		vhCheckMap(m, addr, model, "after mutating iteration")
 	case 6: // bulk pop
 		var got []uint64
+		popSnap := vhSnapshotAll(storage)
 		err := m.PopIterate(func(ks, vs Storable) {
 			id, _ := vhKeyID(ks, storage)
 			got = append(got, id)
@@ -241,6 +246,7 @@ func VH_C13_GroupIterators() {
 			vhDispose(storage, vs)
 		})
 		vhAssert(err == nil, "pop: no error")
+		vhCheckDirtyMarks(storage, popSnap, "pop: dirty marks")
 		rev := make([]uint64, n)
 		for i := range wantK {
 			rev[n-1-i] = wantK[i]
